@@ -94,6 +94,11 @@ def run(rep, props, replay=None):
             todo.append((t, "normalize", kind, X))
             if np.max(np.abs(fd.dense(x, nz).norm() - 1.0)) > 1e-9:
                 mon.append("normalised observations do not have unit norm")
+            for kw in ({"use_argvals_stand": True}, {"method_integration": "simpson"}) if m >= 3 else ({"use_argvals_stand": True},):
+                if np.all(np.asarray(d.norm(**kw)) > 1e-8):
+                    nk = np.asarray(d.normalize(**kw).norm(**kw), float)
+                    if np.max(np.abs(nk - 1.0)) > 1e-8:
+                        mon.append(f"normalize({kw}) does not give unit norms for norm({kw})")
         # standardize
         sds = np.std(X, axis=0)
         st = np.asarray(d.standardize().values)
@@ -242,6 +247,13 @@ def other_kinds(rep, rng, x, X, quick):
         nm = mv.normalize()
         if np.max(np.abs(nm.norm() - 1.0)) > 1e-8:
             bad.append("normalised multivariate observations do not have unit multivariate norm")
+        # ... under every option the norm accepts: the normalised data have unit norm FOR THAT NORM
+        for kw in ({"use_argvals_stand": True}, {"method_integration": "simpson"},
+                   {"use_argvals_stand": True, "method_integration": "simpson"}):
+            if np.all(np.asarray(mv.norm(**kw)) > 1e-8):
+                nk = np.asarray(mv.normalize(**kw).norm(**kw), float)
+                if np.max(np.abs(nk - 1.0)) > 1e-8:
+                    bad.append(f"multivariate normalize({kw}) does not give unit norms for norm({kw}) (got {nk[:3].tolist()})")
     # component-wise under every option: default, standardised grids, simpson, user weights
     for label, kw, kws in (("default", {}, [{}, {}]),
                            ("use_argvals_stand", {"use_argvals_stand": True}, [{"use_argvals_stand": True}] * 2),
